@@ -32,7 +32,8 @@ RULE = ("five case shapes. (probs) one real problem — a bundled example (unifi
         "to EVERY compiler class whose supports() accepts its kind; compared: the real resulting_problem_kind(kind) and the "
         "features of the compiled problem's kind outside it, against the model's transformer and `<=` on the observed "
         "kinds. (pipe) the same problems through Factory.Compiler(problem_kind=kind, compilation_kinds=cks) for ordered "
-        "1-3 subsets of the compilation kinds: selected engines, per stage whether supports(actual kind) holds and the "
+        "1-3 subsets of the compilation kinds (30% planted so that the second compiler is selectable only for the kind the "
+        "first one DECLARES): selected engines, per stage whether supports(actual kind) holds and the "
         "features outside the declared chain. (rk) resulting_problem_kind of every class on random and realistic kinds, "
         "versions None/1..latest. (sk) supported_kind and supports_compilation of every class. (chain) the factory's "
         "declared chain on random/realistic kinds. Non-trivial = (probs) some compiler compiled the problem and changed its "
@@ -862,9 +863,10 @@ MANIFEST = {
                    "C09_compiler_full) then every stage of a pipeline selected by the model of Factory._get_engine accepts the "
                    "problem it receives and the final kind is within the declared chain (C09_pipeline_accepts, "
                    "C09_compiles_of_compilers, C09_factory_pipeline_accepts). The step needs every declared transformer to be "
-                   "monotone; this, totality at the latest version and 'the declared result never contains the feature the "
-                   "compilation kind removes' are decided by `decide +kernel` on the resulting_problem_kind programs regenerated "
-                   "from /repo on every run, with generic soundness proofs of the finite checks for all input kinds. Clause 1 itself "
+                   "monotone: decided by a syntactic condition (Prog.monoB, proved sound for all input kinds) on the "
+                   "resulting_problem_kind programs regenerated from /repo on every run; totality at the latest version and 'the "
+                   "declared result never contains the feature the compilation kind removes' (finite check over the features the "
+                   "feature depends on, proved sound) are re-decided by `decide +kernel` as well. Clause 1 itself "
                    "(per compiler, over real compiled problems) is NOT proved — no compiler models yet — and is checked by the "
                    "oracle on the real code for every compiler class on generated and bundled problems; the interpreter of the "
                    "declarations and the chain model are tied to the code by differential runs."),
